@@ -27,7 +27,10 @@ EXPLANATION = (
     "named statement macro is defined with 2 + argCount parameters. T3: fintForeignTable has exactly one row per "
     "enumerator of fintForeignTag (row string = enumerator name, const flag consistent with the two dispatch switches) and "
     "every non-constant enumerator has a case in the PCall dispatch of fintEval_, every constant one in "
-    "fintInitForeignGlobValue. Not decided: equality of outputs on programs.")
+    "fintInitForeignGlobValue. T4: for every builtin, the normalised expression tree of its fintEvalBCall case equals the "
+    "tree of the C the generator emits for it (term built by gc0Builtin/gc0FCall/gc0Cop/gc0SIntMod, computed from their source "
+    "for that tag, names resolved through foam_c.h by clang; expression form and statement-macro form); trees and rewrite list "
+    "are those of C04. Not decided: equality of outputs on programs.")
 
 FROZEN = os.path.join(os.path.dirname(__file__), "frozen")
 INTERP_CHAIN = ["fintStmt", "fintEval_", "fintGetReference"]
@@ -169,6 +172,38 @@ def t3(rep, f_fint):
         rep.violation("T3", "foreign-row:" + t, "fint.c (fintForeignTable)", "row with tag %s that is not an enumerator" % t)
 
 
+def t4(rep, tier):
+    """Per builtin: the interpreter's case and the generated C denote the same expression (trees of C04)."""
+    from . import c04_builtins as c4
+    from .trees import show
+    c4.FORMS = {}
+    try:
+        c4.run(tier)
+        forms = c4.FORMS
+    finally:
+        c4.FORMS = None
+    n = 0
+    for short in sorted(forms):
+        e = forms[short]
+        fi = e["forms"].get("I")
+        if fi is None or "I" in e["incomplete"]:
+            continue
+        for src, what in (("CE", "generated C (expression form)"), ("CS", "generated C (statement macro)")):
+            fc = e["forms"].get(src)
+            if fc is None or src in e["incomplete"]:
+                continue
+            n += 1
+            key = "builtin:%s:I-vs-%s" % (short, src)
+            if fc == fi:
+                rep.ok("T4", key, sample={"builtin": short, "interpreter": show(fi), src: show(fc)} if n in (5, 50) else None)
+            else:
+                rep.violation("T4", key, e["where"].get(src, "genc.c"),
+                              "%s: the interpreter computes %s but %s computes %s: the two routes print different results"
+                              % (short, show(fi), what, show(fc)),
+                              detail={"interpreter": show(fi), "c": show(fc), "where_interpreter": e["where"].get("I")})
+    rep.floor("builtins compared between interpreter and generated C", n, 200)
+
+
 def run(tier, only=None):
     rep = common.Report("C03", tier, EXPLANATION)
     f_fint = common.extract("fint.c", trees=INTERP_CHAIN + ["fintInitForeignGlobValue"])
@@ -177,5 +212,5 @@ def run(tier, only=None):
     t1(rep, f_fint, f_genc)
     t2(rep, f_foam, f_genc)
     t3(rep, f_fint)
-    rep.assumptions.append("semantic agreement of each builtin on the two routes is decided by C04, not recounted here")
+    t4(rep, tier)
     return rep
